@@ -33,18 +33,19 @@ func init() {
 // ---- in-process executor (the overlay-added test in the application's package main)
 
 type appCase struct {
-	ID         int    `json:"id"`
-	App        string `json:"app,omitempty"`
-	Input      string `json:"input"`
-	Display    bool   `json:"display"`
-	Record     bool   `json:"record"`
-	Chunk      int    `json:"chunk"`
-	ReaderUs   int    `json:"reader_us"`
-	WriterMode string `json:"writer_mode"`
-	WriterUs   int    `json:"writer_us"`
-	Procs      int    `json:"gomaxprocs"`
-	LogDir     string `json:"log_dir"`
-	StartMs    int64  `json:"start_unix_ms"`
+	ID          int    `json:"id"`
+	App         string `json:"app,omitempty"`
+	Input       string `json:"input"`
+	Display     bool   `json:"display"`
+	Record      bool   `json:"record"`
+	Chunk       int    `json:"chunk"`
+	ReaderUs    int    `json:"reader_us"`
+	EOFWithData bool   `json:"eof_with_last_chunk,omitempty"`
+	WriterMode  string `json:"writer_mode"`
+	WriterUs    int    `json:"writer_us"`
+	Procs       int    `json:"gomaxprocs"`
+	LogDir      string `json:"log_dir"`
+	StartMs     int64  `json:"start_unix_ms"`
 	// for inputs built from known segments: the valid frames by construction (hex)
 	Expect    string `json:"expect_frames,omitempty"`
 	HasExpect bool   `json:"has_expect,omitempty"`
@@ -528,7 +529,11 @@ func monC11(c *child.Ctx, replay json.RawMessage) {
 			}
 			k := appCase{ID: i + 1, App: app, Input: hexs(in), Chunk: []int{1, 16, 300, 0}[r.Intn(4)], ReaderUs: []int{0, 0, 50}[r.Intn(3)],
 				WriterMode: mode, WriterUs: us, Procs: []int{1, 2, 16}[r.Intn(3)], StartMs: fixedStart.UnixMilli()}
-			if i%40 == 7 {
+			if i == 3 && c.Batch == 0 || c.Thorough() && i%400 == 3 {
+				// one Write that stays blocked for seconds while the input ends
+				k.Input = hexs(gen.RandFrame(r).Bytes)
+				k.WriterMode, k.WriterUs = "blocktail", r.Range(2300000, 3500000)
+			} else if i%40 == 7 {
 				// "however slow the writer is": a writer that blocks a quarter of a second or
 				// more on every call, with a handful of messages
 				var small []byte
@@ -719,7 +724,7 @@ func monC10(c *child.Ctx, replay json.RawMessage) {
 		if mode == "block" {
 			mode, us = "sleep", 100
 		}
-		k := appCase{ID: i + 1, App: "rtcmfilter", Input: hexs(in), Expect: hexs(frames), HasExpect: known, Display: i%4 >= 2, Record: i%2 == 1, Chunk: []int{1, 16, 300, 0}[r.Intn(4)], ReaderUs: []int{0, 0, 50}[r.Intn(3)],
+		k := appCase{ID: i + 1, App: "rtcmfilter", Input: hexs(in), Expect: hexs(frames), HasExpect: known, Display: i%4 >= 2, Record: i%2 == 1, Chunk: []int{1, 16, 300, 0, 5000}[r.Intn(5)], ReaderUs: []int{0, 0, 50}[r.Intn(3)], EOFWithData: r.Chance(1, 3),
 			WriterMode: mode, WriterUs: us, Procs: []int{1, 2, 4, 16}[r.Intn(4)], StartMs: fixedStart.UnixMilli()}
 		if k.Display && len(in) > 4000 {
 			k.Input = hexs(in[:4000])
